@@ -27,7 +27,7 @@ MONITORS = ["c04"]
 
 def build_cases(ctx):
     n = ctx.budget(300, 6000)
-    cases = gwcheck.gen_cases(ctx, "c04", n // 2, mqtt_rate=0.15)
+    cases = scenarios_a.generic_cases(ctx, "c04", n // 2, mqtt_rate=0.15)
     for i in range(n - n // 2):
         rng = ctx.rng("c04d", i)
         cfg = gwcheck.make_cfg(rng)
